@@ -24,6 +24,14 @@ CLAIMED = {
    text="Kernel-checked theorems about a Gallina state machine of RemoteJob (execute_async/execute_sync, status with its consecutive-error counter, cancel, rerun, get_results) whose events are client actions paired with the server's answer to every request they trigger, for ALL finite traces and all states: the repaired code (two one-token patches) refines the specification automaton of the statement; the code as it is refines it on every trace that avoids the two defects, and is refuted otherwise (vm_compute witnesses of length 2 and 7: second creation request on a sent WAITING job; sixth consecutive failure absorbed); final statuses are absorbing and nothing is polled after them; the counter equals the number of failed status requests since the last success over any history; failures 1-4 absorbed when transient, the fifth raises, other HTTP errors raise at once, a success resets; results/cancel/rerun requests are only issued under their guards; a failed job reports the message read with its status. The hand-written model is tied to /repo on every run: the real RemoteJob and RPCHandler run under the `responses` library against a scripted server on every trace of length <= 4 (quick) / 5 (thorough) over a 14-symbol alphabet, every failure run of length <= 8, and random long multi-job traces over the full alphabet; outcome, HTTP requests received and white-box state are compared per step with the extracted model of the code and with the specification.",
    note="All theorems closed under the global context. Two open findings (known_findings.json: double-send, sixth-failure-absorbed) are re-found on every run.",
    tech="Coq proof (refinement + invariants by induction over traces) + extracted-model differential correspondence under a scripted HTTP server"),
+ "C04": dict(cat="proof", ref="DESIGN.md §7 C04",
+   text="Kernel-checked theorems over exact rational distributions: the conditioned result is normalised; physical x logical performance = retained mass; physical performance is exactly the probability of passing the filter; only outcomes passing filter, heralds and post-selection are kept; heralded modes are removed; once heralds are satisfied the filter counts non-herald photons; and the key invariance: restricting every tag-group's engine to the herald mask instantiated with the implementation's photon budget best_n(n_ext, n_own) changes the probability of NO heralded outcome of the merged distribution (any number of groups, any distributions; mask_budget_sound + restriction_invisible by induction over the groups). Every run compares Processor.probs(precision=0) and Simulator.probs_svd (heralds anywhere, post-selection trees, filters 0..n+1, noisy sources, threshold detectors, heralds kept or discarded, SLOS and Naive) with the extracted `condition` applied to the brute-force unmasked specification distribution.",
+   note="All theorems closed under the global context. PostSelect and FSMask are native and modelled; the noisy input mixture is read from the implementation (its statistics are C06). Default-precision trimming (1e-6) is not modelled: the stream runs at precision 0.",
+   tech="Coq proof (conditioning algebra; herald-mask invisibility by induction over tag groups) + extracted-spec differential correspondence"),
+ "C17": dict(cat="proof", ref="DESIGN.md §7 C17, Appendix A.5",
+   text="Kernel-checked refinement: the Gallina model of RemoteJob (execute, poll with the retry counter, cancel, rerun, get_results, execute_sync) produces, on EVERY finite trace of client actions x server answers from every state, the outputs of the specification automaton of the statement (C17_refinement_repaired), with corollaries: sent at most once, final statuses absorbing with no request afterwards, four transient failures absorbed and every later consecutive one raised, success resets, fatal errors raise at once, results/cancel/rerun guards. The pre-repair code is kept as a second configuration with vm_compute-refuted witnesses (double send; sixth failure absorbed) — both repaired in /repo by fix commits. The model is tied to /repo by running the real RemoteJob + RPCHandler under `responses` on all traces of length <= 4 over a 14-symbol alphabet (prefix tree), all failure runs of length <= 8 and random long multi-job traces, comparing outcome, exception class, identifiers, HTTP requests received and white-box state at every step.",
+   note="All theorems closed under the global context. Read time-outs, malformed 200 bodies and from_id are outside the modelled alphabet.",
+   tech="Coq refinement proof (implementation state machine = specification automaton on all traces) + exhaustive short-trace and random long-trace correspondence"),
 }
 REASON_PENDING = "not yet built in this development (see DESIGN.md §10 for the build order); no check is claimed"
 
